@@ -91,6 +91,8 @@ struct World {
     work_no: usize,
     stalled: bool,
     dead: Option<String>,
+    /// depfile path -> the text this scenario's commands last wrote there
+    dep_written: BTreeMap<String, String>,
 }
 
 impl World {
@@ -235,11 +237,21 @@ impl World {
                         t
                     }
                 };
-                if let Some(parent) = Path::new(&eff.depfile).parent() {
-                    let _ = std::fs::create_dir_all(parent);
+                // A command that finds its outputs in place and leaves them alone (kind "keep")
+                // does not rewrite the depfile it wrote last time either, if it would be the same.
+                let noop = eff.kind == "keep"
+                    && outcome == "ok"
+                    && self.dep_written.get(&eff.depfile) == Some(&text);
+                if noop {
+                    notes.insert("depfile-kept".into(), json!(eff.depfile));
+                } else {
+                    if let Some(parent) = Path::new(&eff.depfile).parent() {
+                        let _ = std::fs::create_dir_all(parent);
+                    }
+                    let _ = std::fs::write(&eff.depfile, &text);
+                    self.dep_written.insert(eff.depfile.clone(), text);
+                    notes.insert("depfile".into(), json!(eff.depfile));
                 }
-                let _ = std::fs::write(&eff.depfile, text);
-                notes.insert("depfile".into(), json!(eff.depfile));
             }
         }
         if eff.msvc {
